@@ -149,10 +149,79 @@ def build(tier):
                   "add_layer", "remove_layer", strict_remove=False)
     scalar_family("SimBa", MOD + "simba.EvolvableSimBa", "num_blocks", "min_blocks", "max_blocks", "min_mlp_nodes", "max_mlp_nodes",
                   "add_block", "remove_block", strict_remove=True)
+    # ------------------------------------------------------------------ EvolvableCNN (channels / kernels / strides kept in step)
+    CNNQ = MOD + "cnn.EvolvableCNN"
+
+    def cnn_self(ex, st, label):
+        o = Obj(CNNQ, label="self")
+        mk = Obj(MOD + "cnn.MutableKernelSizes", {"sizes": Seq.new("int", "kernel_sizes"), "tuple_sizes": False, "cnn_block_type": "Conv2d"},
+                 label="mut_kernel_size")
+        mk.fields["calc_max_kernel_sizes"] = Fn(model=lambda ex, st, a, k: Seq.new("int", "max_kernels", mk.fields["sizes"].len), name="calc_max_kernel_sizes")
+        o.fields.update(dict(channel_size=Seq.new("int", "channel_size"), stride_size=Seq.new("int", "stride_size"), mut_kernel_size=mk,
+                             min_hidden_layers=z3.Int("min_hidden_layers"), max_hidden_layers=z3.Int("max_hidden_layers"),
+                             min_channel_size=z3.Int("min_channel_size"), max_channel_size=z3.Int("max_channel_size"),
+                             input_shape=(z3.Int("in_c"), z3.Int("in_h"), z3.Int("in_w")),
+                             cnn_output_size=(z3.Int("out_c"), z3.Int("out_h"), z3.Int("out_w"))))
+        return o
+
+    def cnn_inv(o):
+        f = o.fields
+        cs, ss, ks = f["channel_size"], f["stride_size"], f["mut_kernel_size"].fields["sizes"]
+        i = z3.Int("i!cnn")
+        return z3.And(cs.len == ss.len, cs.len == ks.len, f["min_hidden_layers"] >= 1, f["min_hidden_layers"] <= cs.len, cs.len <= f["max_hidden_layers"],
+                      f["min_channel_size"] >= 1,
+                      z3.ForAll([i], z3.Implies(z3.And(0 <= i, i < cs.len),
+                                                z3.And(f["min_channel_size"] <= cs.arr[i], cs.arr[i] <= f["max_channel_size"], ss.arr[i] >= 1, ks.arr[i] >= 1))))
+
+    def chan_effect(new, old, result, sign):
+        if not isinstance(result, dict) or set(result) != {"hidden_layer", "numb_new_channels"}:
+            return z3.BoolVal(False)
+        l, nn_ = val(result["hidden_layer"]), val(result["numb_new_channels"])
+        a, b, f = new.fields["channel_size"], old.fields["channel_size"], old.fields
+        i = z3.Int("i!ce")
+        same_rest = z3.And(a.len == b.len, z3.ForAll([i], z3.Implies(z3.And(0 <= i, i < a.len, i != l), a.arr[i] == b.arr[i])))
+        if sign > 0:
+            inside = b.arr[l] + nn_ <= f["max_channel_size"]
+            eff = z3.If(inside, a.arr[l] == b.arr[l] + nn_, a.arr[l] == b.arr[l])
+        else:
+            # remove_channel reports 0 removed channels when the bound stops it
+            eff = z3.Or(z3.And(a.arr[l] == b.arr[l] - nn_, nn_ >= 0), z3.And(a.arr[l] == b.arr[l], nn_ == 0))
+        return z3.And(0 <= l, l < b.len, same_rest, eff)
+    P.specns.update(dict(cnn_inv=cnn_inv, chan_effect=chan_effect))
+    argc = {"hidden_layer": "opt:int", "numb_new_channels": "opt:int"}
+    prec = ["hidden_layer is None or hidden_layer >= 0", "numb_new_channels is None or numb_new_channels >= 1"]
+    resc = lambda ex, st, l: {"hidden_layer": z3.Int(fresh_name("res.hidden_layer")), "numb_new_channels": z3.Int(fresh_name("res.numb_new_channels"))}
+    P.contract(CNNQ + ".add_channel", params={"self": cnn_self, **argc}, requires=["cnn_inv(self)"] + prec, frame_fields=False, result=resc,
+               modifies=["self.channel_size"], ensures=["cnn_inv(self)", "chan_effect(self, old(self), result, 1)"], replay="c03:walk")
+    P.contract(CNNQ + ".remove_channel", params={"self": cnn_self, **argc}, requires=["cnn_inv(self)"] + prec, frame_fields=False, result=resc,
+               modifies=["self.channel_size"], ensures=["cnn_inv(self)", "chan_effect(self, old(self), result, -1)"], replay="c03:walk")
+
+    def cnn_layer_effect(new, old, result, sign):
+        a, b = new.fields, old.fields
+        la, lb = a["channel_size"].len, b["channel_size"].len
+        if sign < 0:
+            can = lb > b["min_hidden_layers"]
+            applied = (la == lb - 1) if result is None else z3.BoolVal(False)
+        else:
+            applied = (la == lb + 1) if result is None else z3.BoolVal(False)
+            can = None
+        fallback = chan_effect(new, old, result, 1) if isinstance(result, dict) else z3.BoolVal(False)
+        if can is None:      # add_layer: applied or fell back to add_channel (the decision also depends on the conv arithmetic)
+            return z3.Or(applied, fallback) if result is None else fallback
+        return z3.If(can, applied, fallback)
+    P.specns["cnn_layer_effect"] = cnn_layer_effect
+    P.contract(CNNQ + ".remove_layer", params={"self": cnn_self}, requires=["cnn_inv(self)"], frame_fields=False,
+               modifies=["self.channel_size", "self.stride_size", "self.mut_kernel_size.sizes"],
+               ensures=["cnn_inv(self)", "cnn_layer_effect(self, old(self), result, -1)"], replay="c03:walk")
+    P.contract(CNNQ + ".add_layer", params={"self": cnn_self}, requires=["cnn_inv(self)"], frame_fields=False,
+               modifies=["self.channel_size", "self.stride_size", "self.mut_kernel_size.sizes"],
+               ensures=["cnn_inv(self)", "cnn_layer_effect(self, old(self), result, 1)"], replay="c03:walk")
+    P.trusted += ["MutableKernelSizes.calc_max_kernel_sizes returns one integer per layer (conv arithmetic not under contract: the kernel-fits-input "
+                  "part of 'valid architecture' is only exercised by the native walks)"]
     P.native.append(dict(name="walk", adapter="c03:walk", thorough_only=True, payload={"mode": "search"},
                          bound="MLP, CNN, LSTM, SimBa, MultiInput(vector_mlp), QNetwork: all mutation words up to length 3 plus seeded walks of 40 steps; "
                                "forward output finite with declared shape for batch 1..3; strict reload from init_dict; clone reproduces outputs"))
     P.assumptions += ["sizes are mathematical integers", "explicit arguments satisfy hidden_layer >= 0, numb_new_nodes >= 1"]
-    P.uncovered += ["CNN (channels, kernels, strides), ResNet, MultiInput and network-level latent mutations: native bounded check only",
+    P.uncovered += ["CNN change_kernel and the conv shape arithmetic, ResNet, MultiInput and network-level latent mutations: native bounded check only",
                     "finite forward outputs of the declared shape; constructor description rebuilds an architecture accepting the weights (bounded native)"]
     return P
